@@ -1,0 +1,85 @@
+//go:build verif
+
+package batcher
+
+// This file exists only when the package is built with the "verif" tag. It gives an external
+// verification harness access to a few in-package seams; it changes no behaviour.
+
+import (
+	"context"
+	"sync/atomic"
+	"time"
+)
+
+var verifHook atomic.Value // of func(string)
+
+// VerifSetHook installs fn to be called at every verifPoint; pass nil to remove it.
+func VerifSetHook(fn func(name string)) {
+	if fn == nil {
+		fn = func(string) {}
+	}
+	verifHook.Store(fn)
+}
+
+func verifPoint(name string) {
+	if fn, ok := verifHook.Load().(func(string)); ok {
+		fn(name)
+	}
+}
+
+// VerifLeaseManager is the exported shape of the unexported leaseManager interface.
+type VerifLeaseManager interface {
+	Provision(ctx context.Context) error
+	CreatePartitions(ctx context.Context, count int) error
+	LeasePartition(ctx context.Context, id string, index uint32) time.Duration
+}
+
+type verifLeaseManagerAdapter struct {
+	repeater
+	inner VerifLeaseManager
+}
+
+func (a *verifLeaseManagerAdapter) provision(ctx context.Context) error {
+	return a.inner.Provision(ctx)
+}
+
+func (a *verifLeaseManagerAdapter) createPartitions(ctx context.Context, count int) error {
+	return a.inner.CreatePartitions(ctx, count)
+}
+
+func (a *verifLeaseManagerAdapter) leasePartition(ctx context.Context, id string, index uint32) time.Duration {
+	return a.inner.LeasePartition(ctx, id, index)
+}
+
+// VerifWithLeaseManager replaces the lease manager of r (nil removes it).
+func VerifWithLeaseManager(r *AzureSharedResource, m VerifLeaseManager) *AzureSharedResource {
+	if m == nil {
+		r.leaseManager = nil
+		return r
+	}
+	a := &verifLeaseManagerAdapter{inner: m}
+	a.parent = r
+	r.leaseManager = a
+	return r
+}
+
+// VerifBlobLeaseManager exposes the unexported methods of the Azure Blob lease manager.
+type VerifBlobLeaseManager struct {
+	m *azureBlobLeaseManager
+}
+
+// VerifNewBlobLeaseManager creates a lease manager raising its events to parent and using the supplied
+// container and blob (blob may be nil, in which case blobs come from container.NewBlockBlobURL).
+func VerifNewBlobLeaseManager(parent *AzureSharedResource, container IAzureContainer, blob IAzureBlob) *VerifBlobLeaseManager {
+	m := newAzureBlobLeaseManager(parent, "account", "container")
+	m.withMocks(container, blob)
+	return &VerifBlobLeaseManager{m: m}
+}
+
+func (v *VerifBlobLeaseManager) Provision(ctx context.Context) error { return v.m.provision(ctx) }
+func (v *VerifBlobLeaseManager) CreatePartitions(ctx context.Context, count int) error {
+	return v.m.createPartitions(ctx, count)
+}
+func (v *VerifBlobLeaseManager) LeasePartition(ctx context.Context, id string, index uint32) time.Duration {
+	return v.m.leasePartition(ctx, id, index)
+}
